@@ -36,6 +36,8 @@ TableVerdict(e) ==
   ELSE IF e.bins # m.order \/ e.names # [i \in DOMAIN m.order |-> m.names[m.order[i] + 1]]
        THEN "canonical_names_or_order"
   ELSE IF e.b2c # m.names THEN "bin2canon"
+  ELSE IF \E i \in DOMAIN e.ifg : e.ifg[i][2] # IndicesForGrades(m, Range(e.ifg[i][1])) THEN "indices_for_grades"
+  ELSE IF \E i \in DOMAIN e.typenums : e.typenums[i][2] # TypeNumber(m, Range(e.typenums[i][1])) THEN "type_number"
   ELSE IF \E i \in DOMAIN e.signs : e.signs[i][3] # Sgn(c, e.signs[i][1], e.signs[i][2])
        THEN "sign_table_entry_differs_from_clifford_sign"
   ELSE IF complete /\ d <= 5 /\
